@@ -207,7 +207,17 @@ def evaluate(kind, case, acc):
                 acc.fail(kind, "floor:complement", case, expected="universal", got=describe(r))
         return
     if kind == "twin":
+        from packaging.specifiers import SpecifierSet
+
+        from dep_logic.specifiers import from_specifierset
         from dep_logic.specifiers import parse_version_specifier as P
+
+        # the two entry points are twins as well
+        for text in (f"~={case['v']}", f">={case['v']},!={case['x']}.*", f"<={case['v']},>{case['x']}"):
+            a, b = P(text), from_specifierset(SpecifierSet(text))
+            acc.oracle_evaluations += 1
+            if not (a == b and b == a and hash(a) == hash(b)):
+                acc.fail(kind, "twin:parse-vs-from_specifierset:unequal", case, expected=f"parse({text!r}) == from_specifierset(SpecifierSet({text!r}))", got={"parse": describe(a), "from_specifierset": describe(b)})
 
         for name, ta, tb, complement in _twin_pairs(case):
             a, b = P(ta), P(tb)
